@@ -33,6 +33,10 @@ class SheetParser:
     def remove_from_context(self, key):
         self.context.pop(key)
 
+    def get_shadowed_context(self, keys):
+        """Entries of the context that adding the given keys would overwrite."""
+        return {key: self.context[key] for key in keys if key in self.context}
+
     def create_bookmark(self, name):
         self.bookmarks[name] = copy.copy(self.iterator)
 
